@@ -361,4 +361,40 @@ def momCz (st : State) : Dir → Rat
   | .z => st.p 0
 
 
+
+/-! ### well-formed faces; parameter validation of `discretize`; `ndof` -/
+
+/-- what `cell_faces` and the parameters provide: positive shear moduli and distances; an interior face has two
+    sides of opposite sign and no boundary condition, a boundary face one side and Dirichlet / Neumann per direction -/
+def FaceWF (dim3 : Bool) (f : Face) : Prop :=
+  (∀ s ∈ f.sides, 0 < s.mu ∧ 0 < s.delta) ∧
+  match f.sides with
+  | [a, b] => a.sgn + b.sgn = 0 ∧ ∀ d ∈ dirs dim3, f.bc d = .int
+  | [_] => ∀ d ∈ dirs dim3, f.bc d = .dir ∨ f.bc d = .neu
+  | _ => False
+
+instance (dim3 : Bool) (f : Face) : Decidable (FaceWF dim3 f) := by
+  unfold FaceWF
+  split <;> exact inferInstance
+
+/-- what the sanity checks at the top of `discretize` read for one face -/
+structure BcFace where
+  isRob : List Bool      -- `bnd_disp.is_rob[:, f]`
+  basisOff : List Rat    -- off-diagonal entries of `bnd_disp.basis[:, :, f]`
+  basisDiag : List Rat   -- its diagonal
+  robOff : List Rat      -- off-diagonal entries of `bnd_disp.robin_weight[:, :, f]`
+
+/-- `false` models `raise NotImplementedError`.  As coded: off-diagonal entries are only rejected when POSITIVE;
+    Robin must hold in all directions of a face or in none (`xor(any, not all)`). -/
+def validFace (b : BcFace) : Bool :=
+  !(b.basisOff.any (fun q => decide (0 < q))) && b.basisDiag.all (fun q => decide (q = 1))
+    && !(b.robOff.any (fun q => decide (0 < q))) && (b.isRob.any id == b.isRob.all id)
+
+def validate (bs : List BcFace) : Bool := bs.all validFace
+
+/-- `Tpsa.ndof`; `none` models `NotImplementedError` -/
+def ndof (dim nc : Nat) : Option Nat :=
+  if dim = 2 then some (nc * (2 + dim)) else if dim = 3 then some (nc * (1 + 2 * dim)) else none
+
+
 end PorepyVerif.C16
